@@ -329,18 +329,31 @@ func main() {
 					writes = append(writes, rq.Seq)
 				}
 			}
+			// the fault at the k-th write: a one-shot error reply, or - every second point - a target
+			// that keeps refusing from that write on (loading a dataset, cluster down, out of
+			// memory, read-only replica ...), in the reply classes a client may be tempted to retry
+			classes := []string{"ERR injected failure", "LOADING Redis is loading the dataset in memory",
+				"TRYAGAIN Multiple keys request during rehashing of slot", "CLUSTERDOWN The cluster is down",
+				"MASTERDOWN Link with MASTER is down and replica-serve-stale-data is set to 'no'.",
+				"OOM command not allowed when used memory > 'maxmemory'.", "READONLY You can't write against a read only replica.",
+				"BUSY Redis is busy running a script. You can only call SCRIPT KILL or SHUTDOWN NOSAVE."}
 			for k := 1; k <= len(writes); k++ {
 				progress("P tgterr %s k=%d", idx, k)
 				s2 := *sc
 				cnt := 0
+				persistent := k%2 == 0
+				class := classes[0]
+				if k%4 >= 2 {
+					class = classes[1+(k/4)%(len(classes)-1)]
+				}
 				out, why := fullsync.Run(&s2, func(srv *fakeredis.Server, cancel context.CancelFunc, f *drive.Feeder) {
 					srv.SetHooks(nil, func(rq *fakeredis.Req) (fakeredis.Reply, bool) {
 						if !isTargetWrite(rq) {
 							return nil, false
 						}
 						cnt++
-						if cnt == k {
-							return fakeredis.Err("ERR injected failure"), true
+						if cnt == k || (persistent && cnt > k) {
+							return fakeredis.Err(class), true
 						}
 						return nil, false
 					}, nil)
@@ -352,17 +365,37 @@ func main() {
 				res.Evals++
 				w := describe()
 				w["error_injected_at_write"], w["send_error"] = k, fmt.Sprint(out.Err)
+				w["error_reply"], w["target_keeps_refusing"] = class, persistent
+				flavour := strings.SplitN(class, " ", 2)[0]
+				if persistent {
+					flavour += "+persistent"
+				}
+				// a tool that answers a refusal by trying again may legitimately finish: "reported
+				// complete" is wrong exactly when an entry has not been applied
+				missing, first := 0, ""
+				if out.Returned && (out.Err == nil || hasCp(out, sc.Offset)) {
+					for _, f := range fullsync.CheckDataset(&s2, out, nil) {
+						if strings.HasPrefix(f.Sig, "key-missing") || strings.HasPrefix(f.Sig, "content-differs") {
+							if missing == 0 {
+								first = f.What
+							}
+							missing++
+						}
+					}
+				}
 				switch {
 				case !out.Returned:
 					res.Violation("target-error-replay-hangs", "Send did not return after a target error and made no progress for two 3 s windows", w)
 					return // every further point of this snapshot would wait out the same hang
-				case out.Err == nil:
-					res.Violation("target-error-swallowed|"+pathName(sc), fmt.Sprintf("the target answered an error to write %d of %d but Send returned nil", k, len(writes)), w)
-				case hasCp(out, sc.Offset):
+				case out.Err == nil && missing > 0:
+					res.Violation("target-error-swallowed|"+pathName(sc), fmt.Sprintf("the target answered %q to write %d of %d (keeps refusing: %v) but Send returned nil although %d snapshot keys were not (fully) applied; first: %s", flavour, k, len(writes), persistent, missing, first), w)
+				case hasCp(out, sc.Offset) && missing > 0:
 					w["same_instance_start_point_after_send"] = fmt.Sprintf("%+v", out.AfterSP)
-					res.Violation("failed-replay-recorded-as-complete|target-error|"+pathName(sc)+inProc(out, sc.Offset), "the resume position was advanced to the snapshot offset although the target failed a write", w)
+					res.Violation("failed-replay-recorded-as-complete|target-error|"+pathName(sc)+inProc(out, sc.Offset), fmt.Sprintf("the resume position was advanced to the snapshot offset although the target failed a write (%q) and %d snapshot keys were not (fully) applied", flavour, missing), w)
+				case out.Err == nil:
+					res.Count("target_error_points_finished_completely_after_a_refusal", 1)
 				default:
-					res.DistinctAdd(fmt.Sprintf("tgterr|%s|workers=%d|%s", pathName(sc), sc.Parallel, posClass(k, len(writes))))
+					res.DistinctAdd(fmt.Sprintf("tgterr|%s|workers=%d|%s|%s", pathName(sc), sc.Parallel, posClass(k, len(writes)), flavour))
 				}
 			}
 			res.Count("target_error_points", int64(len(writes)))
